@@ -168,6 +168,9 @@ pub fn run(ctx: &mut Ctx) -> Result<RunOut, Violation> {
         return run_concurrent(ctx);
     }
     if ctx.mode == 2 {
+        if ctx.tape.chance(1, 12) {
+            return run_huge(ctx);
+        }
         return run_sequence(ctx);
     }
     if focus == "C18" && ctx.tape.chance(1, 8) {
@@ -448,14 +451,14 @@ pub fn run(ctx: &mut Ctx) -> Result<RunOut, Violation> {
                     return violation("C18", "no-terminal-after-truncation", format!("{desc}: {} polls without end or error", steps.len()));
                 }
             } else if transient {
-                if ended_clean && upto as u64 != range_len && !via_serve {
-                    return violation("C18", "short-clean-end-after-io-error", format!("{desc}: ended cleanly after {upto} of {range_len} bytes"));
+                // Fail, or deliver the right bytes: never a short clean end, never wrong bytes.
+                // (Whether the stream resumes after the error or stays finished is its choice.)
+                let saw_error = steps.iter().any(|s| matches!(s, Step::Err(_)));
+                if !saw_error && (!ended_clean || upto as u64 != range_len) {
+                    return violation("C18", "short-clean-end-after-io-error", format!("{desc}: no error was reported, yet {upto} of {range_len} bytes arrived (clean end = {ended_clean})"));
                 }
-                if !via_serve {
-                    // Polled on after the error: everything must still be right at the end.
-                    if matches!(steps.last(), Some(Step::End)) && delivered != expected {
-                        return violation("C18", "wrong-bytes-after-io-error", format!("{desc}: {} bytes delivered in total", delivered.len()));
-                    }
+                if !via_serve && (delivered.len() > expected.len() || delivered[..] != expected[..delivered.len()]) {
+                    return violation("C18", "wrong-bytes-after-io-error", format!("{desc}: the {} bytes delivered in total (also after the error) are not a prefix of the range", delivered.len()));
                 }
             } else {
                 // Fault-free (or harmless fault): exact bytes, clean end.
@@ -777,6 +780,8 @@ fn run_concurrent(ctx: &mut Ctx) -> Result<RunOut, Violation> {
 /// are pulled (a narrowing cast or 32-bit arithmetic in the read-size computation shows at once).
 fn run_huge(ctx: &mut Ctx) -> Result<RunOut, Violation> {
     use std::os::unix::fs::FileExt as _;
+    let c02 = ctx.focus == "C02";
+    let prop: &'static str = if c02 { "C02" } else { "C18" };
     let t = &mut ctx.tape;
     const G4: u64 = 1 << 32;
     let mut len = [G4 - 1, G4, G4 + 1, G4 + 65536, 2 * G4, G4 / 2, 3 * (G4 / 2), 1 << 40, G4 + 65535, 5 * G4 + 12345][t.draw(10) as usize];
@@ -791,7 +796,7 @@ fn run_huge(ctx: &mut Ctx) -> Result<RunOut, Violation> {
         2 => (a + G4).min(len),
         _ => (a + G4 + 65536).min(len),
     };
-    let via_serve = t.chance(1, 2);
+    let via_serve = c02 || t.chance(1, 2);
     let pulls = 1 + t.draw(3) as usize;
     let seed = t.draw(u32::MAX) as u64;
     let dir = scratch_dir();
@@ -808,12 +813,12 @@ fn run_huge(ctx: &mut Ctx) -> Result<RunOut, Violation> {
     let check = File::open(&path).expect("open");
     let crf = match Crf::new(rfile, HeaderMap::new()) {
         Ok(c) => c,
-        Err(e) => return violation("C18", "regular-file-refused", e.to_string()),
+        Err(e) => return violation(prop, "regular-file-refused", e.to_string()),
     };
     let desc = format!("sparse file of {len} bytes, range {a}..{b} ({} bytes), via_serve={via_serve}, first {pulls} chunks pulled", b - a);
     ctx.ev("huge", len, a ^ b.rotate_left(17));
     if crf.len() != len {
-        return violation("C18", "len-differs", format!("{desc}: len() = {}", crf.len()));
+        return violation(prop, "len-differs", format!("{desc}: len() = {}", crf.len()));
     }
     let (_f, waker) = crate::a_drain::new_waker();
     let mut cx = Context::from_waker(&waker);
@@ -883,8 +888,8 @@ fn run_huge(ctx: &mut Ctx) -> Result<RunOut, Violation> {
     });
     let _ = w.set_len(0);
     match r {
-        Err(p) => violation("C18", "panic", format!("{p}; {desc}")),
-        Ok(Err(e)) => violation("C18", "huge-range", format!("{desc}: {e}")),
+        Err(p) => violation(prop, "panic", format!("{p}; {desc}")),
+        Ok(Err(e)) => violation(prop, "huge-range", format!("{desc}: {e}")),
         Ok(Ok(())) => {
             ctx.stats.bump("c18_huge_sparse_ranges");
             ctx.stats.grid.insert(format!("huge|len={len}|serve={via_serve}"));
